@@ -206,7 +206,11 @@ class Ctx:
     # ---------- evidence ----------
     def write_evidence(self, level, extra_cov=None, rule=None):
         cov = dict(self.cov)
-        cov["distinct_nontrivial"] = len(self.nt)
+        cov["distinct_nontrivial"] = len(self.nt) + getattr(self, "fn_nontrivial", 0)
+        if cov.get("states", 0) == 0:
+            # no state-graph pass in this check: the level's generic keys (evaluations / distinct_nontrivial) apply
+            cov.pop("states", None)
+            cov.pop("transitions", None)
         if rule:
             cov["rule"] = rule
         if extra_cov:
